@@ -20,6 +20,10 @@ func (eval Evaluator) EvaluateMany(ctIn *rlwe.Ciphertext, linearTransformations 
 	if len(opOut) < len(linearTransformations) {
 		return fmt.Errorf("output *rlwe.Ciphertext slice is too small")
 	}
+
+	if ctIn.Degree() != 1 {
+		return fmt.Errorf("input ciphertext must be of degree 1")
+	}
 	for i := range linearTransformations {
 		if opOut[i] == nil {
 			return fmt.Errorf("output slice contains unallocated ciphertext")
@@ -135,6 +139,10 @@ func (eval Evaluator) EvaluateSequential(ctIn *rlwe.Ciphertext, linearTransforma
 // The naive approach is used (single hoisting and no baby-step giant-step), which is faster than MultiplyByDiagMatrixBSGS
 // for matrix of only a few non-zero diagonals but uses more keys.
 func (eval Evaluator) MultiplyByDiagMatrix(ctIn *rlwe.Ciphertext, matrix LinearTransformation, BuffDecompQP []ringqp.Poly, opOut *rlwe.Ciphertext) (err error) {
+
+	if ctIn.Degree() != 1 {
+		return fmt.Errorf("input ciphertext must be of degree 1")
+	}
 
 	BuffQP := eval.GetBuffQP()
 	BuffCt := eval.GetBuffCt()
@@ -269,6 +277,10 @@ func (eval Evaluator) MultiplyByDiagMatrix(ctIn *rlwe.Ciphertext, matrix LinearT
 // The BSGS approach is used (double hoisting with baby-step giant-step), which is faster than MultiplyByDiagMatrix
 // for matrix with more than a few non-zero diagonals and uses significantly less keys.
 func (eval Evaluator) MultiplyByDiagMatrixBSGS(ctIn *rlwe.Ciphertext, matrix LinearTransformation, ctInPreRot map[int]*rlwe.Element[ringqp.Poly], opOut *rlwe.Ciphertext) (err error) {
+
+	if ctIn.Degree() != 1 {
+		return fmt.Errorf("input ciphertext must be of degree 1")
+	}
 
 	params := eval.GetRLWEParameters()
 
